@@ -120,7 +120,7 @@ def run_property(pid, tier, seed, only=None, jobs=None):
     _GEN.update(mine=light, tier=tier, world=world, timeout=timeout)
     if len(light) > 1 and jobs > 1:
         # (collected with an overall time limit: a worker that dies must not make the check wait for ever)
-        budget = int(os.environ.get('VERIF_POOL_S', 0)) or (7200 if tier == 'thorough' else 2400)
+        budget = int(os.environ.get('VERIF_POOL_S', 0)) or (3600 if tier == 'thorough' else 900)
         pool = mp.get_context('fork').Pool(min(jobs, len(light)))
         try:
             pending = [pool.apply_async(_light_worker, (i,)) for i in range(len(light))]
